@@ -353,8 +353,9 @@ theorem arrayRest_nonalt (f : Fmt) (hf : f.alt = false) (sep pad : Str) :
 theorem arrayAssemble_nonalt (f : Fmt) (ind : Ind) (parts : List (Str × Bool)) (hf : f.alt = false) (hi : ind.indenting = false) :
     arrayAssemble f ind parts =
       (delimPair f.ldelim '[').1 ++ (f.sep.getD [','] ++ [' ']).intercalate (parts.map (·.1)) ++ (delimPair f.ldelim '[').2 := by
+  have hsz : ∀ ps, szBreakOf f ps = false := by intro ps; simp [szBreakOf, hf]
   unfold arrayAssemble
-  simp only [hf, hi, Ind.withIndenting, Ind.breaks, Bool.or_self, Bool.false_and, Bool.false_eq_true, if_false]
+  simp only [hf, hi, hsz, Ind.withIndenting, Ind.breaks, Bool.or_self, Bool.false_and, Bool.false_eq_true, if_false]
   cases parts with
   | nil => simp [List.intercalate]
   | cons p rest =>
